@@ -428,6 +428,99 @@ func vfC11Gather(e *vfEnv, r *vfResult, idx int) { //nolint:cyclop
 	}
 }
 
+// vfC11AgentClose: the GracefulClose clause at agent level, for every way the agent can already have been closed.
+// Slow handlers on all three streams; events are produced (gathering, restart, a connection against a scripted
+// exchange is not needed: state and candidate events suffice); then Close() from the API or from inside a handler,
+// overlapping or followed by GracefulClose().  When any GracefulClose call returns, no handler may be running and none
+// may start afterwards.
+func vfC11AgentClose(e *vfEnv, r *vfResult, idx int) { //nolint:cyclop
+	rng := e.rng(idx, "agentclose")
+	sw := newVfSwitch()
+	nIP := 1 + rng.IntN(3)
+	ips := []string{}
+	for i := 0; i < nIP; i++ {
+		ips = append(ips, fmt.Sprintf("10.0.%d.1", i))
+	}
+	a, err := NewAgent(&AgentConfig{
+		Net: vfSimpleNet(sw, "A", ips...), NetworkTypes: []NetworkType{NetworkTypeUDP4}, CandidateTypes: []CandidateType{CandidateTypeHost},
+		MulticastDNSMode: MulticastDNSModeDisabled, LoggerFactory: vfQuietLogger(),
+	})
+	if err != nil {
+		r.inconclusive(1)
+
+		return
+	}
+	var running, started atomic.Int32
+	lat := time.Duration(rng.IntN(3000)) * time.Microsecond
+	closeFromHandler := rng.IntN(3) == 0
+	var closeOnce sync.Once
+	handler := func() {
+		running.Add(1)
+		started.Add(1)
+		if closeFromHandler {
+			closeOnce.Do(func() { _ = a.Close() }) // non-graceful Close from inside a callback is allowed
+		}
+		time.Sleep(lat)
+		running.Add(-1)
+	}
+	_ = a.OnCandidate(func(Candidate) { handler() })
+	_ = a.OnConnectionStateChange(func(ConnectionState) { handler() })
+	_ = a.OnSelectedCandidatePairChange(func(Candidate, Candidate) { handler() })
+	_ = a.GatherCandidates()
+	if rng.IntN(2) == 0 {
+		time.Sleep(time.Duration(rng.IntN(1500)) * time.Microsecond)
+		_ = a.Restart("", "")
+		_ = a.GatherCandidates()
+	}
+	time.Sleep(time.Duration(rng.IntN(1500)) * time.Microsecond)
+	script := []string{"close-then-graceful", "close||graceful", "graceful-only", "graceful||graceful"}[rng.IntN(4)]
+	type res struct{ running, started int32 }
+	results := make(chan res, 4)
+	graceful := func() {
+		_ = a.GracefulClose()
+		results <- res{running.Load(), started.Load()}
+	}
+	nG := 1
+	switch script {
+	case "close-then-graceful":
+		_ = a.Close()
+		go graceful()
+	case "close||graceful":
+		go func() { _ = a.Close() }()
+		go graceful()
+	case "graceful-only":
+		go graceful()
+	default:
+		nG = 2
+		go graceful()
+		go graceful()
+	}
+	r.eval(1)
+	wit := map[string]any{"idx": idx, "script": script, "close_from_handler": closeFromHandler, "handler_latency_us": lat.Microseconds()}
+	for i := 0; i < nG; i++ {
+		select {
+		case x := <-results:
+			if x.running > 0 {
+				r.violation("handler-running-when-graceful-close-returned", fmt.Sprintf("history %d (%s, Close from a handler: %v): %d handler(s) were running when GracefulClose returned", idx, script, closeFromHandler, x.running), wit)
+
+				return
+			}
+			// nothing may start afterwards
+			time.Sleep(2*lat + 200*time.Microsecond)
+			if now := started.Load(); now != x.started {
+				r.violation("handler-started-after-graceful-close", fmt.Sprintf("history %d (%s): %d handler invocation(s) started after GracefulClose had returned", idx, script, now-x.started), wit)
+
+				return
+			}
+		case <-time.After(20 * time.Second):
+			r.violation("graceful-close-stuck", fmt.Sprintf("history %d (%s): GracefulClose did not return", idx, script), map[string]any{"idx": idx, "stacks": vfStacks()})
+
+			return
+		}
+	}
+	r.distinct(fmt.Sprintf("agentclose/%s/cfh=%v/lat=%d", script, closeFromHandler, lat.Microseconds()/500))
+}
+
 func TestVerifC11(t *testing.T) {
 	vfRun(t, "C11", func(e *vfEnv, r *vfResult) {
 		n := e.n(3000, 120000)
@@ -437,6 +530,9 @@ func TestVerifC11(t *testing.T) {
 		m := e.n(300, 12000)
 		for i := 0; i < m; i++ {
 			vfC11Gather(e, r, i)
+		}
+		for i := 0; i < e.n(300, 12000); i++ {
+			vfC11AgentClose(e, r, i)
 		}
 	})
 }
